@@ -46,6 +46,9 @@ pub struct Case {
     /// xargs' stderr is /dev/full: its diagnostics cannot be written, the exit status must not change
     #[serde(default)]
     pub stderr_full: bool,
+    /// xargs is started with SIGCHLD ignored
+    #[serde(default)]
+    pub sigchld_ignored: bool,
 }
 
 fn ok_outcome() -> Oc {
@@ -75,7 +78,7 @@ pub fn gen_case(g: &mut Gen) -> Case {
     }
     let batch = g.weighted(&[5, 3, 2]) as u8;
     let k = if batch == 2 { 1 } else { g.usize_in(1, 3) };
-    Case { outcomes, k, batch, cmd: g.weighted(&[14, 1, 1, 1, 1, 1, 1]) as u8, mode: g.weighted(&[5, 2, 1]) as u8, no_run_if_empty: g.chance(1, 3), bare: gen_outcome(g), stderr_full: g.chance(1, 6) }
+    Case { outcomes, k, batch, cmd: g.weighted(&[14, 1, 1, 1, 1, 1, 1]) as u8, mode: g.weighted(&[5, 2, 1]) as u8, no_run_if_empty: g.chance(1, 3), bare: gen_outcome(g), stderr_full: g.chance(1, 6), sigchld_ignored: g.chance(1, 6) }
 }
 
 pub fn script_of(o: &[Oc]) -> String {
@@ -200,7 +203,7 @@ pub fn check(ctx: &mut Ctx, c: &Case) -> Outcome {
     };
     // -I with empty input runs nothing (C20) - not asserted here beyond the status
     let script = if c.outcomes.is_empty() { script_of(std::slice::from_ref(&c.bare)) } else { script_of(&c.outcomes) };
-    let run = run_xargs(ctx, &opts, &cmd, &input, &script, BinOpts { clear_env: true, stderr_sink: c.stderr_full as u8, ..Default::default() });
+    let run = run_xargs(ctx, &opts, &cmd, &input, &script, BinOpts { clear_env: true, stderr_sink: c.stderr_full as u8, ignore_sigchld: c.sigchld_ignored, ..Default::default() });
     let kind = match c.cmd {
         0 => "rec",
         1 | 2 => "missing-command",
@@ -228,6 +231,7 @@ pub fn check(ctx: &mut Ctx, c: &Case) -> Outcome {
         .class_if(c.outcomes.is_empty() && runs_at_all && c.bare != Oc::Exit(0), "empty-input-invocation-fails")
         .class_if(c.batch == 2, "replace-mode")
         .class_if(c.stderr_full, "stderr-cannot-be-written")
+        .class_if(c.sigchld_ignored, "started-with-SIGCHLD-ignored")
         .sample(json!({"cmdline": format!("xargs {} {}", opts.iter().map(|o| o.to_string_lossy().into_owned()).collect::<Vec<_>>().join(" "), kind), "script": script_of(&c.outcomes), "status": want_status, "invocations": want_started}))
         .ok()
 }
@@ -252,6 +256,11 @@ struct ErrSpec {
     /// the error is only raised when the reader reaches the tail (earlier invocations run first)
     lazy: bool,
 }
+
+/// Input that no command can be given (an argument holding a NUL byte): the statement leaves open
+/// whether that is an input error (status 1) or is coped with (the argument cut short, status by
+/// the invocations) - but the command can be executed and was found, so 126 and 127 are wrong.
+const NUL_INPUTS: &[(&[&str], &[u8])] = &[(&["-n", "1"], b"a\0b\nc\n"), (&["-d", ",", "-n", "1"], b"a,b\0c"), (&["-L", "1"], b"x\ny\0\n"), (&[], b"\0")];
 
 const ERRORS: &[ErrSpec] = &[
     ErrSpec { name: "-n 0", opts: &["-n", "0"], tail: "", lazy: false },
@@ -286,9 +295,23 @@ fn gen_err(g: &mut Gen) -> ErrCase {
 }
 
 fn check_err(ctx: &mut Ctx, c: &ErrCase) -> Outcome {
-    let spec = &ERRORS[c.which % ERRORS.len()];
     ctx.fresh_case_dir();
     let rec = rec_path();
+    if c.which >= ERRORS.len() {
+        let (o, input) = NUL_INPUTS[(c.which - ERRORS.len()) % NUL_INPUTS.len()];
+        let opts: Vec<OsString> = o.iter().map(OsString::from).collect();
+        let run = run_xargs(ctx, &opts, &[rec.clone()], input, "", BinOpts { clear_env: true, ..Default::default() });
+        let desc = format!("xargs {opts:?} rec\ninput {:?}\nobserved status {:?} signal {:?}, {} invocation(s)\nstderr {:?}", lossy(input), run.out.code, run.out.signal, run.records.len(), lossy(&run.out.stderr));
+        if !run.out.ordinary() {
+            return fail("C19:own-error:abnormal-termination:NUL byte in input", desc);
+        }
+        return match run.out.code {
+            Some(0) => Pass::new(true).class("NUL-byte-in-input:coped-with").ok(),
+            Some(1) if !run.out.stderr.is_empty() => Pass::new(true).class("NUL-byte-in-input:input-error").ok(),
+            other => fail(format!("C19:own-error:status-{}-for-NUL-byte-in-input", other.unwrap_or(-1)), desc),
+        };
+    }
+    let spec = &ERRORS[c.which % ERRORS.len()];
     // -s SIZE: room for the command and a short argument, not for LONG
     let size = rec.len() + 1 + 12;
     let long = "L".repeat(40);
@@ -367,11 +390,11 @@ fn run(w: &mut Worker) {
                 o.push(classes[idx % classes.len()].clone());
                 idx /= classes.len();
             }
-            all.push(Case { outcomes: o, k: 1, batch: (all.len() % 2) as u8, cmd: 0, mode: 0, no_run_if_empty: false, bare: classes[all.len() % classes.len()].clone(), stderr_full: all.len() % 5 == 4 });
+            all.push(Case { outcomes: o, k: 1, batch: (all.len() % 2) as u8, cmd: 0, mode: 0, no_run_if_empty: false, bare: classes[all.len() % classes.len()].clone(), stderr_full: all.len() % 5 == 4, sigchld_ignored: all.len() % 7 == 6 });
         }
     }
     w.exhaustive("outcomes-short", &format!("all outcome sequences of length <= {maxlen} over 6 outcome classes"), all.into_iter(), check);
-    w.exhaustive("own-errors-table", "every entry of the own-error table with no earlier invocation", (0..ERRORS.len()).map(|which| ErrCase { which, before: vec![] }), check_err);
+    w.exhaustive("own-errors-table", "every entry of the own-error table with no earlier invocation", (0..ERRORS.len() + NUL_INPUTS.len()).map(|which| ErrCase { which, before: vec![] }), check_err);
     w.random("outcomes", w.tier.pick(2_500, 40_000), (20, 120), 300, gen_case, check);
     w.random("own-errors", w.tier.pick(600, 8_000), (4, 16), 100, gen_err, check_err);
 }
